@@ -438,7 +438,57 @@ def k8_handler(facts, rep, clause, fn, extra_complete=None, min_release=True, la
         rep.ob(clause, 'K8', fn, '%s%s is completed (status stored with release) or deferred on every path' % ((label + ': ') if label else '', what),
                ok, 'an operation can be dropped without a status: the thread that submitted it spins forever (%s)' %
                ('handler returns' if ex else 'next operation taken'), ln=ln, key_extra=str(ln))
+    _k8_no_touch_after_status(facts, rep, clause, fn, label)
     return len(starts)
+
+
+def _k8_no_touch_after_status(facts, rep, clause, fn, label):
+    """The status store hands the operation object back to the thread that submitted it (it lives on that thread's stack and is
+    re-used for its next operation at once).  After `op->status.store(...)` the handler must not touch `op` again - in
+    particular not read op->next to find the following operation: the link has to be read BEFORE the status is published."""
+    from engine.rules import assignments
+    bad = []
+    nst = 0
+    for b, i, e in fn.iter_elems():
+        if not _is_status_store(fn, e, min_release=False):
+            continue
+        op = atomic_op(fn, e)
+        rn = fn.n(root_of(fn, op['obj']))
+        if rn.get('k') != 'var':
+            continue
+        vid = rn['v']
+        nst += 1
+
+        def redefines(pos, el):
+            if not isinstance(el, int):
+                return False
+            nd = fn.nodes[el]
+            if nd.get('k') == 'binop' and nd.get('op') == '=':
+                l = fn.n(fn.strip(nd['l']))
+                return l.get('k') == 'var' and l.get('v') == vid
+            if nd.get('k') == 'decl':
+                return any(v['v'] == vid for v in nd['vars'])
+            return False
+        reached, ex, par = fn.walk((b, i), stop_elem=redefines)
+        for q in reached:
+            if q == (b, i):
+                continue
+            el = fn.elems(q[0])[q[1]]
+            if not isinstance(el, int):
+                continue
+            # any member access through the handed-back pointer inside this element (the redefinition `op = op->next` included)
+            for x in fn.subtree(el):
+                nd = fn.nodes[x]
+                if nd.get('k') == 'member' and 'base' in nd:
+                    r = fn.n(root_of(fn, x))
+                    if r.get('k') == 'var' and r.get('v') == vid and not _is_status_store(fn, el, min_release=False):
+                        bad.append((fn.nodes[e].get('ln'), nd.get('n'), nd.get('ln')))
+    if nst:
+        bad = sorted(set(bad))
+        rep.ob(clause, 'K4', fn, '%san operation is not touched any more once its status has been published' % ((label + ': ') if label else ''),
+               not bad, 'after the status store at line %s the handler still reads `%s` of the same operation (line %s): the submitter may '
+               'already have re-used the operation object, the handler walks into garbage - operations are dropped (their threads hang) or '
+               'foreign operations are completed' % (bad[0] if bad else ('', '', '')), key_extra='no-touch')
 
 
 # ---------------------------------------------------------------------------------------------------------------
